@@ -3,6 +3,7 @@ package pgpfmt
 import (
 	"errors"
 	"fmt"
+	"math/big"
 )
 
 // Pkt is one packet of a packet sequence (§4.2, §4.3).
@@ -378,4 +379,87 @@ func classifySig(p Pkt, set func(from, to int, l string)) (SigInfo, bool) {
 		set(s.a, s.b, LSigMPI)
 	}
 	return si, true
+}
+
+// RSASecret holds the algorithm-specific fields of an unprotected v4 RSA
+// secret-key packet (RFC 4880 §5.5.2, §5.5.3): n, e, then d, p, q, u.
+type RSASecret struct {
+	N, E, D, P, Q, U *big.Int
+}
+
+// ParseRSASecretKey parses the body of a tag 5 / tag 7 packet holding an
+// unprotected (S2K usage 0) version 4 RSA key and verifies the 16-bit checksum.
+func ParseRSASecretKey(body []byte) (*RSASecret, error) {
+	if len(body) < 6 || body[0] != 4 {
+		return nil, errors.New("not a v4 key packet")
+	}
+	if body[5] != 1 && body[5] != 2 && body[5] != 3 {
+		return nil, errors.New("not an RSA key")
+	}
+	pos := 6
+	mpi := func() (*big.Int, error) {
+		if pos+2 > len(body) {
+			return nil, errors.New("truncated MPI")
+		}
+		bits := int(body[pos])<<8 | int(body[pos+1])
+		nb := (bits + 7) / 8
+		if pos+2+nb > len(body) {
+			return nil, errors.New("truncated MPI")
+		}
+		v := new(big.Int).SetBytes(body[pos+2 : pos+2+nb])
+		pos += 2 + nb
+		return v, nil
+	}
+	k := &RSASecret{}
+	var err error
+	if k.N, err = mpi(); err != nil {
+		return nil, err
+	}
+	if k.E, err = mpi(); err != nil {
+		return nil, err
+	}
+	if pos >= len(body) || body[pos] != 0 {
+		return nil, errors.New("secret part is protected or missing")
+	}
+	pos++
+	start := pos
+	for _, dst := range []**big.Int{&k.D, &k.P, &k.Q, &k.U} {
+		if *dst, err = mpi(); err != nil {
+			return nil, err
+		}
+	}
+	if pos+2 != len(body) {
+		return nil, errors.New("unexpected octets after the secret MPIs")
+	}
+	sum := 0
+	for _, b := range body[start:pos] {
+		sum = (sum + int(b)) & 0xffff
+	}
+	if sum != int(body[pos])<<8|int(body[pos+1]) {
+		return nil, errors.New("secret key checksum mismatch")
+	}
+	return k, nil
+}
+
+// Check reports the §5.5.3 requirements that do not hold: n = p*q, p < q,
+// u = p^-1 mod q, e*d = 1 mod lcm(p-1, q-1).
+func (k *RSASecret) Check() []string {
+	var bad []string
+	if new(big.Int).Mul(k.P, k.Q).Cmp(k.N) != 0 {
+		bad = append(bad, "n != p*q")
+	}
+	if k.P.Cmp(k.Q) >= 0 {
+		bad = append(bad, "p >= q")
+	}
+	if inv := new(big.Int).ModInverse(k.P, k.Q); inv == nil || inv.Cmp(k.U) != 0 {
+		bad = append(bad, "u != p^-1 mod q")
+	}
+	one := big.NewInt(1)
+	p1, q1 := new(big.Int).Sub(k.P, one), new(big.Int).Sub(k.Q, one)
+	g := new(big.Int).GCD(nil, nil, p1, q1)
+	lcm := new(big.Int).Div(new(big.Int).Mul(p1, q1), g)
+	if ed := new(big.Int).Mod(new(big.Int).Mul(k.E, k.D), lcm); ed.Cmp(one) != 0 {
+		bad = append(bad, "e*d != 1 mod lcm(p-1,q-1)")
+	}
+	return bad
 }
